@@ -1,4 +1,6 @@
 #include <occa/internal/lang/expr.hpp>
+#include <occa/internal/lang/expr/expressionParser.hpp>
+#include <occa/internal/lang/tokenizer.hpp>
 #include <occa/internal/lang/statement.hpp>
 #include <occa/internal/lang/variable.hpp>
 #include <occa/internal/lang/builtins/types.hpp>
@@ -360,6 +362,40 @@ namespace occa {
         }
 
         return count;
+      }
+
+      bool oklForStatement::getTiledIterationCount(int &count) {
+        exprNode *countExpr = getIterationCount();
+        if (!countExpr) {
+          return false;
+        }
+        const std::string source = countExpr->toString();
+        delete countExpr;
+
+        // Reading the tile size off the first digit in this string took the 2 of
+        // "_occa_tiled_i2 + 16" or of a tile size written as "2 + 2"
+        tokenVector tokens = tokenizer_t::tokenize(source);
+        const int tokenCount = (int) tokens.size();
+        for (int i = 0; i < tokenCount; ++i) {
+          token_t *token = tokens[i];
+          if ((token->type() & tokenType::identifier)
+              && (((identifierToken*) token)->value.find("_occa_tiled_") == 0)) {
+            tokens[i] = new primitiveToken(token->origin, 0, "0");
+            delete token;
+          }
+        }
+
+        exprNode *expr = expressionParser::parse(tokens);
+        const bool isConstant = (expr
+                                 && !(expr->type() & exprNodeType::empty)
+                                 && expr->canEvaluate());
+        if (isConstant) {
+          count = (int) expr->evaluate();
+        }
+        delete expr;
+        freeTokenVector(tokens);
+
+        return isConstant;
       }
 
       exprNode* oklForStatement::makeDeclarationValue(exprNode &magicIterator) {
